@@ -23,7 +23,7 @@ def _sim_states(c):
     """reference bookkeeping used ONLY to generate well-formed schedules (which task bodies are running after each op); neither the
     oracle nor the comparison uses it.  Yields the list of task states ('Q' | 'R' | 'D') after start and after every op."""
     fl, n, outs = c['fl'], c['n'], c['outs']
-    v0 = n - 1 if c['entry'] == 'hold' else n
+    v0 = n - 1      # both entries hold a permit (bounded_gather wraps the call in `async with sema`)
     st = ['Q'] * len(outs)
     free = v0 if fl == 'on' else v0 + 1
     helper = 'active'
@@ -55,7 +55,7 @@ def _sim_states(c):
                 free += 1
                 if outs[i][0] == 'e':
                     if fl == 'rc' and helper == 'active':
-                        cancel(range(i))
+                        cancel(range(len(st)))
                     if fl == 'on':
                         cancel(range(len(st)))
                         shut = True
@@ -83,21 +83,22 @@ class C20(Prop):
     technique = ('Lean 4 proof by induction over schedules of a step-machine model of the helpers (steps = what happens between two quiescent '
                  'states of the event loop) + differential correspondence with the real helpers under a deterministic asyncio loop')
     level_text = ('Theorems for all schedules (all completion orders, all failure patterns, all semaphore sizes, any number of tasks): running '
-                  'bodies + free permits + the permit the caller holds = permits at the call + 1, hence at most capacity bodies run when the '
-                  'caller holds a permit of the semaphore (as WithoutSemaphore assumes) — and exactly parallelism + 1 can run under '
-                  'bounded_gather(parallelism=…), proved as a counterexample; a returned list is the scripted outcomes in submission order, '
-                  'every slot a value or an exception; the raised exception is the first one in schedule order (also for '
-                  'OnlineBoundedGather2, body exception included); after a normal return every task is finished; with cancel_on_error the '
-                  'tasks BEFORE the failed one are cancelled — the full statement (all remaining tasks cancelled and awaited) is refuted on '
-                  'a witness, as is "no task pending at exit" for OnlineBoundedGather2 when the body raises. The model is tied to the real '
+                  'bodies + free permits equal a budget determined by the helper state (permit accounting), hence at most n bodies run at '
+                  'once under bounded_gather2 / OnlineBoundedGather2 called by a permit holder and under bounded_gather(parallelism=n) — '
+                  'always for return_exceptions, cancel_on_error=True and the online pool, and for cancel_on_error=False until the helper '
+                  'raises (after that n+1 can run: open finding F4, refuted on its witness); a returned list is the scripted outcomes in '
+                  'submission order, every slot a value or an exception; the raised exception is the first one in schedule order (also for '
+                  'OnlineBoundedGather2, body exception included); after a normal return, after a cancel_on_error raise and after leaving '
+                  'the online pool every task is finished and none was pending at that instant. The three repaired defects (b83b6cc09, '
+                  '2f78d4573, 426463a22) are kept as a pre-repair model variant refuted on their witnesses. The model is tied to the real '
                   'helpers by comparing (task states, sema._value, helper result, tasks unfinished at return, peak concurrency) after every '
                   'step of random and exhaustive small schedules.')
     level_note = ('partial: asyncio.gather / wait / shield / Semaphore / Event / Task.cancel are modelled from their documented behaviour '
                   '(FIFO wake-ups, permit handed over at release, gather propagates the first exception and leaves the rest running), not '
                   'verified; the correspondence with CPython 3.12 on <= 5 tasks x failure patterns x semaphore sizes 1..3 is what validates '
-                  'that. Task bodies block on one gate and end at once when cancelled. Three genuine defects are recorded as open findings '
-                  '(bounded_gather runs parallelism+1 bodies; cancel_on_error stops at the failed task; OnlineBoundedGather2 does not wait '
-                  'for the tasks it cancels when its body raises).')
+                  'that. Task bodies block on one gate and end at once when cancelled. One genuine defect remains open (F4: '
+                  'WithoutSemaphore does not re-acquire on error while the caller still releases, so after a failed '
+                  'cancel_on_error=False gather n+1 bodies can run); three others found by this check were repaired.')
     budget = {'quick': 2500, 'thorough': 30000}
     search_budget = {'quick': 3000, 'thorough': 30000}
     rule = ('case = (helper flavour rx|rf|rc|on, entry hold = caller holds one permit of Semaphore(n) | bg = bounded_gather(parallelism=n), '
